@@ -1,6 +1,7 @@
 import PytezosModel.Michelson.Macros
 import PytezosModel.Michelson.MacroSem
 /-! C19 helper lemmas: the regex matcher of the mirror, and where `dispatch` sends the names of each family. -/
+set_option linter.unusedSimpArgs false
 namespace C19.Dispatch
 open Impl.Macros Generated.C19 Spec
 
